@@ -259,7 +259,7 @@ def revive(case: Case) -> Case:
     if case.payload is not None:
         return case
     s = G.parse_sexp(case.line)
-    if s[0] in ("sched", "sharedsub"):
+    if s[0] in ("sched", "sharedsub", "rulereeval"):
         return case
     d = {(p[0] if isinstance(p, list) else p): (p[1:] if isinstance(p, list) else []) for p in s[1:]}
     fake = G.parse_query("(q (sel) (objs " + " ".join(_unparse(o) for o in d["objs"]) + ") (doms " +
@@ -279,7 +279,7 @@ def _unparse(s) -> str:
 
 
 def nontrivial(case: Case, spec: str) -> bool:
-    if case.line == "(sharedsub)":
+    if case.line in ("(sharedsub)", "(rulereeval)"):
         return False
     if case.line.startswith("(sched"):
         return any(t.isdigit() for t in spec.split()) and case.line.count("(start") >= 2
@@ -398,8 +398,46 @@ def _shared_sub() -> str:
     return "[" + " ".join(G.show_row((r,)) for r in q1.evaluate()) + "]"
 
 
+def _rule_reeval() -> str:
+    """F-C03-2: a rule query with a conclusion selector (alternative) evaluated twice"""
+    from dataclasses import dataclass
+    from krrood.entity_query_language.entity import let, entity, inference
+    from krrood.entity_query_language.quantify_entity import an
+    from krrood.entity_query_language.rule import alternative
+    from krrood.entity_query_language.conclusion import Add
+    from krrood.entity_query_language.predicate import Symbol
+    from krrood.entity_query_language.symbol_graph import SymbolGraph
+
+    @dataclass(eq=False)
+    class RSrc(Symbol):
+        a: int
+
+    @dataclass(eq=False)
+    class RView(Symbol):
+        src: RSrc = None
+
+    @dataclass(eq=False)
+    class RSpecial(RView):
+        ...
+
+    SymbolGraph().clear(); SymbolGraph()
+    srcs = [RSrc(i) for i in (1, 2, 3)]
+    x = let(RSrc, srcs, name="x")
+    q = an(entity(views := let(RView, None), x.a >= 2))
+    with q:
+        Add(views, inference(RView)(src=x))
+        with alternative(x.a == 1):
+            Add(views, inference(RSpecial)(src=x))
+    def obs():
+        return sorted((type(v).__name__, v.src.a) for v in q.evaluate())
+    first, second = obs(), obs()
+    return "same" if first == second and first else f"first={first} second={second}"
+
+
 def _one(case: Case) -> str:
     try:
+        if case.line == "(rulereeval)":
+            return _rule_reeval()
         if case.line == "(sharedsub)":
             return _shared_sub()
         if case.line.startswith("(sched"):
